@@ -92,23 +92,26 @@ def collect_trajectories(
         rewards.append(reward[jnp.newaxis])
 
         obs = jnp.copy(next_obs)
+        if "final_obs" in info:
+            # bootstrap from the final observation of a finished episode, not
+            # from the first observation of the next one (SAME_STEP autoreset)
+            for env_idx in np.flatnonzero(info["_final_obs"]):
+                obs = obs.at[env_idx].set(info["final_obs"][env_idx])
         if logger is not None and "episode" in info:
-            finished_reward_len_obs = [
-                (r, l, o)
-                for r, l, o, f in zip(
+            finished_reward_len = [
+                (r, l)
+                for r, l, f in zip(
                     info["episode"]["r"],
                     info["episode"]["l"],
-                    info["final_obs"],
                     info["_episode"],
                     strict=True,
                 )
                 if f
             ]
-            for i, (r, l, o) in enumerate(finished_reward_len_obs):
+            for r, l in finished_reward_len:
                 global_step += int(l)
                 logger.record_stat("return", float(r), step=global_step)
                 logger.start_new_episode()
-                obs = obs.at[i].set(o)
 
         next_value = critic(obs).flatten()
         terminated_arr.append(terminated[jnp.newaxis])
